@@ -45,6 +45,10 @@ type Result struct {
 	Root    *V // final root value (what -o would serialise), nil if none
 	Events  map[string]int
 	JSONUse bool // json() output was produced (exact text is not modelled)
+	// Globals are the variables of the global frame at the end of the run
+	// (used by generators to steer the next step of a history; never by oracles)
+	Globals map[string]V
+	Dollar  *V
 }
 
 type frameKind int
@@ -131,6 +135,14 @@ func Run(cfg Config) (res Result) {
 	defer func() {
 		res.Out = i.out.Bytes()
 		res.Events = i.events
+		res.Globals = map[string]V{}
+		for k, l := range i.frames[0].vars {
+			res.Globals[k] = l.V
+		}
+		if i.ruleRoot != nil {
+			d := i.ruleRoot.V
+			res.Dollar = &d
+		}
 		res.JSONUse = i.jsonUse
 		if r := recover(); r != nil {
 			switch s := r.(type) {
